@@ -134,7 +134,15 @@ func genDirectedMove(t *rapid.T) *Case {
 			c.Prefix = append(c.Prefix, Action{Kind: "cycle"}, Action{Kind: "scrapeAll"})
 		}
 	}
+	// the Prometheus of one shard alone keeps scraping for a while (the other pod is busy restarting, replaying its WAL)
+	if solo := rapid.IntRange(0, 4).Draw(t, "soloRounds"); solo > 0 {
+		sh := rapid.IntRange(0, 1).Draw(t, "soloShard")
+		for ; solo > 0; solo-- {
+			c.Prefix = append(c.Prefix, Action{Kind: "scrape", Shard: sh}, Action{Kind: "cycle"})
+		}
+	}
 	c.RandSeed = int64(rapid.IntRange(1, 1<<30).Draw(t, "randSeed"))
+	c.J1Interval = rapid.SampledFrom([]string{"", "", "4m59s", "5m", "10m", "1h"}).Draw(t, "j1Interval")
 	return c
 }
 
@@ -335,6 +343,7 @@ func GenCase(t *rapid.T, withFaults bool) *Case {
 		}
 	}
 	c.RandSeed = int64(rapid.IntRange(1, 1<<30).Draw(t, "randSeed"))
+	c.J1Interval = rapid.SampledFrom([]string{"", "", "4m59s", "5m", "10m", "1h"}).Draw(t, "j1Interval")
 	return c
 }
 
